@@ -128,6 +128,8 @@ class Walker:
                     site.update(kind='e', detail='relational %s between two plain char values (allowed under the byte-order table condition)' % op)
                 else:
                     site.update(kind='f', detail='relational %s of plain char against non-char value' % op)
+            elif op == '-' and other_char:
+                site.update(kind='e', detail='difference of two plain char values (its sign follows the byte order: allowed under the byte-order table condition)')
             elif op == '&' and oc is not None and 0 <= oc <= 0xFF:
                 site.update(kind='c', detail='masked with constant 0x%x' % oc)
             elif op in ('=',):
